@@ -193,6 +193,9 @@ func runC09(c *core.Ctx) {
 	})
 	checkMaxCountsTable(c)
 
+	// "quorum-sized commit" is measured with Share.Quorum: every share the validator reads got it as 2f+1
+	checkQuorumStores(c, "C09-R2")
+
 	// ---------------- R2: partial signatures
 	vps := mvf + "validatePartialSignatureMessage"
 	ensures(c, "C09-R2", vps, "err=nil", []Req{
@@ -232,6 +235,18 @@ func runC09(c *core.Ctx) {
 		n += atCalls(c, "C09-R3", vps, w, ptable)
 	}
 	c.Min("C09-R3", n, 3, "signer-state writes in validatePartialSignatureMessage")
+	// the signer state is shared with the consensus validator: a partial-signature message may
+	// reset it only when it opens a strictly newer slot (a same-slot reset would erase the signer's
+	// round, per-round counts and remembered proposal, re-opening every consensus limit of the slot)
+	k09 := atCalls(c, "C09-R3", vps, mvN+"SignerState.ResetSlot", []Req{{"newer-slot", "lt(*.Slot, p2.Message.Slot)", "the slot is only ever advanced; a partial-signature message for the signer's current slot must not reset the consensus limits"}})
+	c.Min("C09-R3", k09, 1, "ResetSlot in validatePartialSignatureMessage")
+	if f := fn(c, "C09-R3", vps); f != nil {
+		for _, s := range callsIn(f, mvN+"SignerState.ResetSlot") {
+			got := s.Call(c).String()
+			c.Decide(ens.Glob(mvN+"SignerState.ResetSlot(*, p2.Message.Slot, 1:Round, *)", got), "C09-R3", "validatePartialSignatureMessage|ResetSlot(msgSlot, FirstRound, …)", c.P.Pos(s.Instr.Pos()), clip(got),
+				"the signer state is reset to "+clip(got)+": it must remember the message's own slot and the first round")
+		}
+	}
 	// who else writes signer state
 	for _, callee := range []string{"ConsensusState.CreateSignerState", "SignerState.ResetSlot", "SignerState.ResetRound", "MessageCounts.RecordConsensusMessage", "MessageCounts.RecordPartialSignatureMessage"} {
 		parts := strings.SplitN(callee, ".", 2)
